@@ -23,6 +23,7 @@ F18 = "C20-percent-in-text-mangled"
 F19 = "C20-parser-panics-on-route-without-path"
 F20 = "C20-format-panics-on-doc-without-handler"
 F21 = "C20-deleted-statement-after-import-changes-blank-lines"
+F22 = "C20-comment-with-line-break-inside-one-line-construct"
 
 STOP_KINDS = {"(", "AT_DOC", "AT_HANDLER", ";", "}"}
 
@@ -288,6 +289,8 @@ def mutant_shape(m):
         nxt = toks[i + 1] if i + 1 < len(toks) else None
         if t in c20gen.HTTP and i >= 2 and toks[i - 2] == "@handler" and nxt in ("(", "returns", "@doc", "@handler", ";", "}"):
             shapes.add(F19)
+        if t == "}" and i >= 1 and toks[i - 1] == "@handler":
+            shapes.add(F20)      # '@handler }' : accepted as an item without handler/route
         if t == "}" and i >= 1:
             # '@doc "x" }'  or  '@doc ( ... ) }'
             if i >= 2 and toks[i - 2] == "@doc" and toks[i - 1].startswith('"'):
@@ -404,7 +407,13 @@ class C20(Property):
                     "multi_indent": on[F17],
                     "empty_after_import": on[F21],
                     "maxstmts": rng.choice([2, 4, 7, 9])}
-            src = c20gen.generate(rng, opts, inline=1)
+            # "every legal position": line comments / comments followed by a line break also inside
+            # constructs the formatter prints on one line (finding family F22)
+            inl = 2 if (self._on(F22) and rng.random() < 0.25) else 1
+            if inl == 2:
+                src = c20gen.generate(rng, opts, odd=rng.choice([0.15, 0.3, 0.5]), pc=rng.choice([0.15, 0.3, 0.45]), inline=2)
+            else:
+                src = c20gen.generate(rng, opts, inline=1)
             muts = []
             for m in c20gen.mutants(rng, src, 4 if tier != "search" else 2):
                 sh = mutant_shape(m)
@@ -468,6 +477,8 @@ class C20(Property):
         main_ok = self._main_ok(obs)
         if not main_ok:
             fid = self._explain_main(case, obs)
+            if fid is None or fid not in kids:
+                fid = self._explain_inline(case, obs) if F22 in kids else None
             if fid is None:
                 return None
             ids.add(fid)
@@ -502,6 +513,55 @@ class C20(Property):
         if o2["ast"] != obs["ast"] or not self._main_ok(o2):
             return None
         return F10
+
+    def _explain_inline(self, case, obs):
+        """F22: the source is valid; it has comments that carry a line break (a line comment, or a
+        comment with a line break before/after it) between two tokens that the formatter prints
+        on the same line; and without exactly those comments the program satisfies the whole
+        property.  Which gaps are "same line" is read off the formatted comment-free program."""
+        if obs["pout"] != "ok" or obs.get("serr") or not obs["cmts"]:
+            return None
+        toks, cmts = obs["toks"], obs["cmts"]
+        src0 = delete_comments(case["src"], cmts, range(len(cmts)))
+        if src0 is None:
+            return None
+        rc, out, res = c20lib.run(self.bin, [{"src": src0}])
+        if rc != 0 or len(res) != 1:
+            return None
+        o0 = res[0]
+        if not self._main_ok(o0) or o0["pout"] != "ok" or o0["ast"] != obs["ast"]:
+            return None
+        ft = o0["ftoks"]
+        # align the source tokens with the formatted ones (the formatter only deletes tokens:
+        # empty constructs and ';')
+        import difflib
+        sm = difflib.SequenceMatcher(a=[(t[0], t[1]) for t in toks], b=[(t[0], t[1]) for t in ft], autojunk=False)
+        fidx = {}
+        for blk in sm.get_matching_blocks():
+            for k in range(blk.size):
+                fidx[blk.a + k] = blk.b + k
+        idxs = []
+        for ci, c in enumerate(cmts):
+            nxt = c[0] + 1
+            if c[0] < 0 or nxt >= len(toks) or nxt not in fidx or c[0] not in fidx:
+                continue
+            if ft[fidx[nxt]][2] == 1:
+                continue         # the formatter breaks the line here anyway: conventional position
+            line_break = (c[1] == "COMMENT") or toks[nxt][2] == 1 or c[3] == 0
+            if line_break:
+                idxs.append(ci)
+        if not idxs:
+            return None
+        src2 = delete_comments(case["src"], cmts, idxs)
+        if src2 is None:
+            return None
+        rc, out, res = c20lib.run(self.bin, [{"src": src2}])
+        if rc != 0 or len(res) != 1:
+            return None
+        o2 = res[0]
+        if o2["ast"] != obs["ast"] or not self._main_ok(o2):
+            return None
+        return F22
 
     # ---- evidence ---------------------------------------------------------------
     def nontrivial(self, case, obs):
